@@ -322,3 +322,16 @@ Example C02_source_ex :
   | GRaise _ _ => false
   end = true.
 Proof. exact source_ex. Qed.
+
+(* an ndarray source is represented by a view (key, start, stop) of the queued waveform (Queue/TieLib.v); slicing the view
+   is Python slicing of its samples (Common/PySlice), for all bounds present or omitted, whenever start <= stop - which
+   holds of every source the model reaches (pos <= len) *)
+Theorem C02_source_view_is_slice : forall lo hi k a b, a <= b ->
+  view_samples (view_slice lo hi (k, a, b)) = py_slice lo hi (view_samples (k, a, b)).
+Proof. exact view_slice_is_py_slice. Qed.
+Print Assumptions C02_source_view_is_slice.
+
+Theorem C02_source_view_is_slice_refuted : exists lo hi k a b, b < a /\
+  view_samples (view_slice lo hi (k, a, b)) <> py_slice lo hi (view_samples (k, a, b)).
+Proof. exact view_slice_refuted. Qed.
+Print Assumptions C02_source_view_is_slice_refuted.
